@@ -227,7 +227,7 @@ example :
 
 /-- A dataset `x` (stored), `y = x + 1` (derived). -/
 def witnessTable : Table Nat Nat Nat :=
-  [(0, .prim ⟨[3], [1], 0, fun i => i.toNat⟩), (1, .derived (.binary (.bin 0 (.cid 0) (.const 1))))]
+  [(0, .prim ⟨[3], [1], 0, fun i => i.toNat⟩ false), (1, .derived (.binary (.bin 0 (.cid 0) (.const 1))))]
 
 def witnessInterp : Interp Nat Nat := ⟨fun _ a b => a + b, fun _ _ => 0, fun a => a⟩
 
@@ -262,8 +262,8 @@ example : TableOk [3] witnessTable ∧ refsOk 3 witnessTable 1 = true ∧
 `d = b*c`, `e = c+1`.  Removing `a` removes `a, b, d` and keeps `c, e` in order. -/
 example :
     let t : Table Nat Nat Nat :=
-      [(0, .prim ⟨[1], [1], 0, fun _ => 5⟩), (1, .derived (.binary (.bin 0 (.cid 0) (.const 1)))),
-       (2, .prim ⟨[1], [1], 0, fun _ => 7⟩), (3, .derived (.binary (.bin 1 (.cid 1) (.cid 2)))),
+      [(0, .prim ⟨[1], [1], 0, fun _ => 5⟩ false), (1, .derived (.binary (.bin 0 (.cid 0) (.const 1)))),
+       (2, .prim ⟨[1], [1], 0, fun _ => 7⟩ false), (3, .derived (.binary (.bin 1 (.cid 1) (.cid 2)))),
        (4, .derived (.binary (.bin 0 (.cid 2) (.const 1))))]
     (removeComp 6 t 0).keys = [2, 4] ∧ depClosure t 0 = [0, 1, 3] := by
   decide
@@ -275,10 +275,10 @@ a single pass over the derived components in table order would keep `d` — and 
 first gives the same survivors.  Also a cyclic pair `x = y+1`, `y = x+a`: both go with `a`. -/
 example :
     let t : Table Nat Nat Nat :=
-      [(0, .prim ⟨[1], [1], 0, fun _ => 5⟩), (3, .derived (.binary (.bin 1 (.cid 2) (.const 2)))),
-       (2, .derived (.binary (.bin 0 (.cid 0) (.const 1)))), (4, .prim ⟨[1], [1], 0, fun _ => 7⟩)]
+      [(0, .prim ⟨[1], [1], 0, fun _ => 5⟩ false), (3, .derived (.binary (.bin 1 (.cid 2) (.const 2)))),
+       (2, .derived (.binary (.bin 0 (.cid 0) (.const 1)))), (4, .prim ⟨[1], [1], 0, fun _ => 7⟩ false)]
     let cyc : Table Nat Nat Nat :=
-      [(5, .derived (.binary (.bin 0 (.cid 6) (.const 1)))), (0, .prim ⟨[1], [1], 0, fun _ => 5⟩),
+      [(5, .derived (.binary (.bin 0 (.cid 6) (.const 1)))), (0, .prim ⟨[1], [1], 0, fun _ => 5⟩ false),
        (6, .derived (.binary (.bin 0 (.cid 5) (.cid 0))))]
     (removeComp 5 t 0).keys = [4] ∧ depClosure t 0 = [0, 2, 3] ∧
     ((reorderComps t [4, 3, 2, 0]).map fun t' => ((removeComp 5 t' 0).keys, t'.keys)) =
